@@ -90,3 +90,22 @@ Definition plan_doc (S : schema) (D : document) (share : bool) (fuel : nat) : ps
     plan S D share fuel fuel root [o_sel o] pst0
   | [] => pst0
   end.
+
+(* ---- size measures for the closed-form bound on findConflict calls ---- *)
+Fixpoint sel_sz (s : selection) : nat :=
+  match s with
+  | SField _ _ _ _ _ sub =>
+    Datatypes.S ((fix go (l : list selection) : nat := match l with [] => O | x :: r => sel_sz x + go r end) sub)
+  | SSpread _ _ _ => O
+  | SInline _ _ _ sub =>
+    (fix go (l : list selection) : nat := match l with [] => O | x :: r => sel_sz x + go r end) sub
+  end.
+(* the number of field nodes of a selection set, nested ones included (not through spreads) *)
+Definition sels_sz (ss : list selection) : nat := fold_right (fun s a => sel_sz s + a) O ss.
+
+(* the largest selection-set tree the rule is called on, in field nodes *)
+Definition max_set_size (S : schema) (D : document) : nat :=
+  list_max (map (fun s => sels_sz (snd s)) (all_sets S D ++ frag_bodies S D)).
+
+Definition fc_calls (S : schema) (D : document) (fuel : nat) : nat :=
+  m_fc (final_state S D true fuel).
